@@ -403,6 +403,12 @@ fn run_c14_inner(sc: &HistSc, st: &mut Stats) -> super::c06::HistOutcome {
             }
             if let Some(nk) = flip_char(obs[j].key.as_str(), &mut rng) { let mut e = obs.clone(); e[j].key = Key::from(nk.as_str()); near.push(("one character of one key changed in one bit", e)); }
             if let Value::String(t) = &obs[j].value { if let Some(nt) = flip_char(t.as_str(), &mut rng) { let mut e = obs.clone(); e[j].value = Value::String(nt.as_str().into()); near.push(("one character of one string value changed in one bit", e)); } }
+            if j + 1 < obs.len() {
+                // the boundary between two adjacent keys moved by one character (the concatenation of all keys stays the same)
+                let (k1, k2) = (obs[j].key.as_str().to_string(), obs[j + 1].key.as_str().to_string());
+                let moved = if let Some(c) = k1.chars().last() { let mut a = k1.clone(); a.pop(); Some((a, format!("{}{}", c, k2))) } else if let Some(c) = k2.chars().next() { Some((c.to_string(), k2[c.len_utf8()..].to_string())) } else { None };
+                if let Some((a, b)) = moved { let mut e = obs.clone(); e[j].key = Key::from(a.as_str()); e[j + 1].key = Key::from(b.as_str()); near.push(("the boundary between two adjacent keys moved by one character", e)); }
+            }
             { let mut e = obs.clone(); let x = e[j].clone(); e.push(x); near.push(("one entry duplicated", e)); }
             { let mut e = obs.clone(); e.remove(j); near.push(("one entry removed", e)); }
             if j + 1 < obs.len() && !(obs[j].key.as_str() == obs[j + 1].key.as_str() && same_value(&obs[j].value, &obs[j + 1].value)) { let mut e = obs.clone(); e.swap(j, j + 1); near.push(("two adjacent entries swapped", e)); }
